@@ -37,6 +37,10 @@ TOKEN_SOURCES = [
     (re.compile(r"\brandom_shuffle\b"), "std::random_shuffle (unspecified source of randomness)"),
     (re.compile(r"\bhardware_concurrency\b"), "std::thread::hardware_concurrency()"),
     (re.compile(r"reinterpret_cast\s*<\s*(std::)?(u?intptr_t|size_t|long)\s*>"), "address converted to an integer"),
+    # ambient process state (seeded C08-11 / C08-12): the thread's errno, the state of the standard streams, the global locale
+    (re.compile(r"(?<![\w.])errno\b"), "errno read or tested"),
+    (re.compile(r"(if|while)\s*\(\s*!?\s*std\s*::\s*(cout|cerr|clog|cin)\s*[)&|]|std\s*::\s*(cout|cerr|clog)\s*\.\s*(good|fail|bad|eof|rdstate|operator\s+bool)\s*\("), "state of a standard stream tested"),
+    (re.compile(r"\bsetlocale\s*\(|std\s*::\s*locale\s*(::\s*global|\s*\(\s*\))|\blocaleconv\s*\("), "global locale read or set"),
 ]
 
 
